@@ -66,6 +66,7 @@ func TestVerifC10(t *testing.T) {
 	}
 	vfOrderSweep(e)
 	e.EdgeSlots()
+	e.ForcedDims(r)
 	e.SlotSweep(sweeps, vfutil.Scale(7, 1))
 	e.BraceSweep(vfutil.Scale(6, 8))
 	e.RunGenerated(r, vfutil.Scale(800, 20000), 40, 60)
